@@ -1163,7 +1163,10 @@ def _native_histories(tier="quick", seed=0):
         elif k == 3:
             sh.add_group_shape().shapes.add_textbox(0, 0, 10, 10)
         else:
-            sh.build_freeform(0, 0).add_line_segments([(10, 10), (20, 0)]).convert_to_shape()
+            # one builder, two shapes (the builder may be converted any number of times): each gets an id of its own
+            fb = sh.build_freeform(0, 0).add_line_segments([(10, 10), (20, 0)])
+            fb.convert_to_shape()
+            fb.convert_to_shape(5, 5)
 
     def op_turbo(prs, rnd):
         sh = a_slide(prs, rnd).shapes
